@@ -25,6 +25,9 @@ def main(tier, args):
              ("plain", plain, 4, 48, 3), ("plain", plain, 4, 200, 2), ("plain", plain, 5, 48, 2), ("plain", plain, 5, 200, 2),
              ("asan", asan, 0, 48, 2), ("asan", asan, 1, 200, 1), ("asan", asan, 2, 48, 1), ("asan", asan, 4, 48, 2), ("asan", asan, 5, 48, 1), ("tsan", tsan, 0, 48, 2), ("tsan", tsan, 1, 200, 1), ("tsan", tsan, 2, 48, 1), ("tsan", tsan, 4, 48, 2), ("tsan", tsan, 5, 48, 1)]
     jobs = [("%s:s%d_b%d" % (m, s, b), [exe, str(s), str(b), str(bd)]) for (m, exe, s, b, bd) in S]
+    # spurious condition-variable wake-ups (engine option SCHED_SPURIOUS=1: one per execution, one deviation each) through the real AsyncPipe under the log path
+    spur_bd = 1 if tier == "quick" else 2
+    jobs += [("spur:s%d_b%d" % (s, b), [plain, str(s), str(b), str(spur_bd)], {"SCHED_SPURIOUS": "1"}) for (s, b) in ((0, 48), (3, 200), (4, 48))]
     jobs += [("inputs:len", [inp, "len"]), ("inputs:filter", [inp, "filter"]), ("inputs:file", [inp, "file", work]), ("inputs:stdout", [inp, "stdout", work]), ("inputs:filterseq", [inp, "filterseq", "4" if tier == "quick" else "6"])]
     LP = 6        # the life-cycle BFS is partitioned by its first op over LP processes
     jobs += [("inputs:lifecycle_p%d" % p, [inp, "lifecycle", "5" if tier == "quick" else "7", str(p), str(LP)]) for p in range(LP)]
@@ -32,7 +35,7 @@ def main(tier, args):
     vf.run_procs(res, jobs, env={"VERIF_DEADLINE_S": str(dl), "VERIF_WORKERS": "3", "VERIF_TIER": tier, "TSAN_OPTIONS": "report_signal_unsafe=0:exitcode=0"}, log=log, jobs=7)
     shutil.rmtree(work, ignore_errors=True)
     vf.finish(PID, tier, res, t0,
-              rule="(S) stateless DFS over all interleavings (preemption+timed-flush deviations bounded per scenario: " + ", ".join("%s s%d buf%d <=%d" % (m, s, b, bd) for (m, e, s, b, bd) in S) + ") of 1-2 logging threads calling the real LogPrintfFunc into a synchronous recording Sink and an AsyncSink on the real AsyncPipe (buffers smaller than one record), then disable(); every line must equal an expected record, each once, per-thread order kept. "
+              rule="(S) stateless DFS over all interleavings (preemption+timed-flush deviations bounded per scenario: " + ", ".join("%s s%d buf%d <=%d" % (m, s, b, bd) for (m, e, s, b, bd) in S) + "; scenarios s0/buf48, s3/buf200, s4/buf48 again with one spurious condition-variable wake-up per execution as a further deviation kind, bound %d" % spur_bd + ") of 1-2 logging threads calling the real LogPrintfFunc into a synchronous recording Sink and an AsyncSink on the real AsyncPipe (buffers smaller than one record), then disable(); every line must equal an expected record, each once, per-thread order kept. "
                    "Scenarios s4/s5: main calls disable() on both sinks (s4), or disable() then enable() then disable() on the async sink (s5), WHILE one thread is logging 2-3 records; oracle: delivered lines are whole, at most once and in order, a record whose call started and returned inside one enabled period is present, one whose call lay entirely inside the disabled period is absent, nothing is added after disable() returned. "
                    "(I) exhaustive sweeps: text length {0..8, 2046..2050, max-1, max, max+1, max+7} x max in {1,10,2047,2048,2049,4096} x {puts, %s, %c%s} x text alphabet {letters, printf conversions such as %s%d%%%n} with the async line compared WHOLE (head with level code, time, usec, thread id, module); degenerate calls {fmt NULL, module NULL, function NULL, file NULL, file without directory / ending in '/', level -1, -1000, 8, 1000} x {puts, printf}; "
                    "all 8 levels x 8 default thresholds (set by setLevel(l), and by setLevel(\"\", l) over an earlier different default) x {unset,0..7} per-module threshold (+unset) x 2 modules on both sink kinds; "
